@@ -44,7 +44,9 @@ Definition local_inv (q : proc) : Prop :=
   (in_handler (pc q) = true -> r_err q = true) /\
   (in_finally (pc q) = true -> raised q = r_err q) /\
   (pc q = Fin0 -> raised q = true) /\
-  (pc q = ExcHold -> dirty q = true).
+  (pc q = ExcHold -> dirty q = true) /\
+  (pc q = Done -> ret q <> None) /\
+  (ret q <> None -> pc q = Done).
 
 (* ---- what the job directory holds while the process is still inside its with block *)
 Definition dir_there (c : pcT) : bool :=
@@ -80,7 +82,7 @@ Section C35.
 
   Lemma local_inv_lstep p q g a q' g' : lstep p q g a = Some (q', g') -> local_inv q -> local_inv q'.
   Proof.
-    intros H (L1 & L2 & L3 & L4 & L6 & L5). inv_lstep H. all: fin H.
+    intros H (L1 & L2 & L3 & L4 & L6 & L5 & L7 & L8). inv_lstep H. all: fin H.
     all: unfold local_inv; usepc.
     all: repeat match goal with
                 | H : true = true -> _ |- _ => specialize (H eq_refl)
@@ -94,6 +96,8 @@ Section C35.
                 | H : _ /\ _ |- _ => destruct H
                 end; try lia; try congruence.
     all: repeat match goal with H : ?x = _ |- context [if ?x then _ else _] => rewrite H end; try congruence.
+    all: try (match goal with H : ?a <> None -> _, H' : ?a <> None |- _ => specialize (H H'); discriminate end).
+    all: try (exfalso; auto; fail).
   Qed.
 
   Lemma fs_inv_lstep p q g a q' g' : lstep p q g a = Some (q', g') -> fs_inv q g -> fs_inv q' g'.
@@ -120,7 +124,7 @@ Section C35.
   Lemma c35_inv_init pre : c35_inv (init pre).
   Proof.
     split; intros p.
-    - unfold local_inv; cbn. repeat split; intros; try discriminate; auto.
+    - unfold local_inv; cbn. repeat split; intros; try discriminate; auto; try (exfalso; auto; fail).
     - intros _. apply fs_inv_outside. reflexivity.
   Qed.
 
